@@ -57,6 +57,18 @@ class C11(ParserSessionProp):
                 if rng.random() < 0.3:
                     op['schedule']['start_delay'] = {str(i): round((70 - i) * 0.1, 2) for i in range(70)}
             ops.append(op)
+        # two calls far outside the grid: hundreds of sentences, 90-260 worker processes (more than 100 chunks)
+        for _ in range(2):
+            n = rng.randint(100, 420)
+            p = rng.choice([rng.randint(90, 260), n, rng.randint(2, 12)])
+            start = rng.randrange(6)
+            op = {'op': 'call', 'batch': [(start + k) % 6 for k in range(n)], 'processes': p,
+                  'max_chunk_size': rng.choice([20, 20, 1, 0]), 'unary_penalty': 0.1, 'beta': 1e-5, 'use_beta': False,
+                  'pruning_size': 2, 'nbest': 1, 'max_step': 1000, 'max_length': 250,
+                  'schedule': {'default_service': 0.01}}
+            if rng.random() < 0.5:
+                op['schedule']['start_delay'] = {str(i): round((300 - i) * 0.05, 2) for i in range(300)}
+            ops.append(op)
         return {'prop': self.id, 'seed': seed, 'index': index, 'world': wspec, 'ops': ops,
                 'knobs': {'family': 'grid', 'fault_class': 'none', 'nbest': 1}, 'executor': 'inprocess'}
 
